@@ -147,6 +147,80 @@ def check(ctx, rep):
         err_ok = bool(srcs) and all(o.kind == 'arg' and o.n == 1 and 'as Err' in o.suffix and o.suffix[-1] == '.error' for o in srcs)
         rep.expect('R17.b', err_ok, key + '|error', 'Err(error) returns the shell\'s error (clone tabled)',
                    '%s no longer returns the error reported by the shell unchanged' % uname)
+    # R17.h: the PUBLIC methods of the capability (`K` with an event constructor, `K_async`) are pass-throughs around the request
+    # function R17.a judges: on every path they ask the shell (one call of the request function, outside any loop, with the like-named
+    # parameters) and what they hand back — the return value of `K_async`, the argument of the event constructor given to update_app
+    # in `K` — is exactly the awaited answer. (Seeded: `set_async` answering a repeated identical write from a memo.)
+    rep.rule('R17.h', 'every public capability method asks the shell on every path and hands back exactly the awaited answer', floor=10)
+
+    def _is_req(t, fname):
+        n = norm(t.get('callee') or '')
+        if n == 'crux_kv::' + fname:
+            return True
+        return last_seg(n) == fname + '_async' and 'KeyValue' in norm(t.get('cself') or n)
+
+    def _awaited_req(g, operand, fname):
+        os_ = origins(g, operand)
+        return bool(os_) and all(o.kind == 'call' and _is_req(o.term, fname) and any(s_[0] == 'await' for s_ in o.steps) for o in os_)
+
+    for variant, fname, uname, fields, resp_fields in OPS:
+        for form, mname in (('async', fname + '_async'), ('event', fname)):
+            ms = [f for f in kv.built if f.kind == 'AssocFn' and f.name == mname and path_matches(f.assoc.get('self_adt'), 'crux_kv::KeyValue')
+                  and not f.assoc.get('trait')]
+            key = '%s|%s' % (form, variant)
+            if len(ms) != 1:
+                rep.bad('R17.h', key + '|missing', 'capability method KeyValue::%s not found (%d)' % (mname, len(ms)))
+                continue
+            bs = bodies(kv, ms[0])
+            if form == 'async' and any(True for g in bs for _ in g.calls('crux_core::capability::CapabilityContext::request_from_shell')):
+                # the request function folded into the method: it is the function R17.a judges
+                rep.ok('R17.h', key, 'KeyValue::%s is itself the request function (R17.a)' % mname)
+                continue
+            reqs = [(g, bb, t) for g in bs for bb, t in g.calls() if _is_req(t, fname)]
+            why = []
+            if len(reqs) != 1:
+                why.append('%d call(s) of the request function' % len(reqs))
+            else:
+                g, bb, t = reqs[0]
+                if g.in_cycle(bb):
+                    why.append('the request is made inside a loop')
+                if any(r_ in g.reachable([0], removed_blocks=[bb]) for r_ in g.return_blocks()):
+                    why.append('a return is reachable without asking the shell')
+                for i, want in enumerate(fields.values()):
+                    if 1 + i >= len(t['args']):
+                        why.append('argument %d missing' % (1 + i))
+                        continue
+                    names, calls = param_names(g, t['args'][1 + i], extra=INTO + [('core::clone::Clone::clone', 0)])
+                    if names != {want} or calls:
+                        why.append('argument %d comes from %s %s, expected parameter `%s`' % (1 + i, sorted(names), sorted(calls), want))
+                if form == 'async':
+                    if not _awaited_req(g, {'l': 0, 'p': []}, fname):
+                        why.append('the value returned is not (only) the awaited answer of the shell')
+                else:
+                    ups = [(g2, bb2, t2) for g2 in bs for bb2, t2 in g2.calls('crux_core::capability::CapabilityContext::update_app')]
+                    if len(ups) != 1:
+                        why.append('%d update_app call(s)' % len(ups))
+                    else:
+                        g2, bb2, t2 = ups[0]
+                        if g2.in_cycle(bb2) or any(r_ in g2.reachable([0], removed_blocks=[bb2]) for r_ in g2.return_blocks()):
+                            why.append('update_app is not made exactly once on every path')
+                        evs = origins(g2, t2['args'][-1])
+                        good = bool(evs)
+                        for o in evs:
+                            if o.kind != 'call' or 'call_once' not in last_seg(o.term.get('callee') or ''):
+                                good = False
+                                continue
+                            rn, rc = param_names(g2, o.term['args'][0])
+                            if len(rn) != 1 or rc or (rn & (set(fields.values()) | {'self', 'context'})):
+                                good = False
+                            tup = o.term['args'][1]
+                            if 'l' not in tup or not _awaited_req(g2, {'l': tup['l'], 'p': list(tup['p']) + ['.0']}, fname):
+                                good = False
+                        if not good:
+                            why.append('the event is not the caller\'s constructor applied to exactly the awaited answer of the shell')
+            rep.expect('R17.h', not why, key, 'KeyValue::%s: one request on every path, like-named arguments, the awaited answer handed back' % mname,
+                       'crux_kv capability method `%s`: %s — the app would get an answer the shell never gave, or the shell would not be asked'
+                       % (mname, '; '.join(why)))
     # R17.e: every error the app sees was reported by the shell: crux_kv never constructs a KeyValueError itself
     rep.rule('R17.e', 'crux_kv constructs no KeyValueError of its own (errors are the shell\'s)', floor=1)
     made = []
